@@ -42,7 +42,7 @@ class Table(dict):
 
     def get(self, x):
         v = self.get_dataframe().get(x)
-        return KLONG_UNDEFINED if v is None else v.values
+        return KLONG_UNDEFINED if v is None else v.values.copy()
 
     def set(self, x, y):
         self.get_dataframe()[x] = y
